@@ -10,6 +10,7 @@ import (
 	"os"
 	"sort"
 	"strconv"
+	"strings"
 	"sync"
 	"sync/atomic"
 	"time"
@@ -43,14 +44,15 @@ type NodeBehaviour struct {
 
 // World is one simulated cluster.
 type World struct {
-	S     *simapi.Store
-	Ctl   *kit.Controllers
-	R     *rand.Rand
-	Ctx   *core.Ctx
-	Mon   *Monitors
-	User  *simapi.Client
-	Behav map[string]*NodeBehaviour
-	Coop  bool // cooperative kubelet: ignore hostile knobs
+	S         *simapi.Store
+	Ctl       *kit.Controllers
+	R         *rand.Rand
+	Ctx       *core.Ctx
+	Mon       *Monitors
+	User      *simapi.Client
+	Behav     map[string]*NodeBehaviour
+	Coop      bool // cooperative kubelet: ignore hostile knobs
+	nestSteps []string
 	// HasOverrides: node override annotations / ExtendedDaemonsetSettings are part of this world
 	HasOverrides bool
 	Trace        []string
@@ -88,6 +90,19 @@ func NewWorld(ctx *core.Ctx, opts kit.CtlOpts) *World {
 }
 
 func (w *World) tracef(format string, a ...any) {
+	if w.nestDepth > 0 && !strings.HasPrefix(format, "  ") {
+		// what happened inside a suspended reconcile, abstracted to the kind of step (for the
+		// distinct-interleavings count in the evidence)
+		f := strings.Fields(format)
+		if len(f) > 2 {
+			f = f[:2]
+		}
+		step := strings.Join(f, " ")
+		if strings.HasPrefix(format, "reconcile %s") && len(a) > 0 {
+			step = "reconcile " + fmt.Sprint(a[0])
+		}
+		w.nestSteps = append(w.nestSteps, step)
+	}
 	if w.MaxTrace <= 0 {
 		return
 	}
@@ -532,12 +547,14 @@ func (w *World) EnableNested(p float64, act func(outer string)) {
 				inv.Nested = true
 			}
 			w.tracef("  >> nested (inside %s reconcile, before %s %s)", name, call.Verb, call.Kind)
+			w.nestSteps = w.nestSteps[:0]
 			n := 1 + w.R.Intn(2)
 			for i := 0; i < n; i++ {
 				w.nestedAct(name)
 			}
 			w.tracef("  << end nested")
 			w.Ctx.Count("sim.nested-yields")
+			w.Ctx.Distinct("interleavings", name+" before "+call.Verb+" "+call.Kind+" @"+call.Callsite+" <- "+strings.Join(w.nestSteps, "; "))
 			w.nestDepth--
 		}
 	}
